@@ -134,6 +134,7 @@ package cors
 //@   ensures C15.request_headers_are_a_set: result == nil && !icfg.asteriskReqHdrs ==> (forall x string :: Mem(icfg.allowedReqHdrs, x) == (exists j :: 0 <= j && j < len(names) && old(names[j]) != "*" && headers.IsValid(old(names[j])) && (util.ByteLowercase(old(names[j])) == "authorization" || (!headers.IsForbiddenRequestHeaderName(util.ByteLowercase(old(names[j]))) && !headers.IsProhibitedRequestHeaderName(util.ByteLowercase(old(names[j]))))) && x == util.ByteLowercase(old(names[j]))))
 //@   ensures result == nil ==> SetInv(icfg.allowedReqHdrs) && (len(icfg.allowedReqHdrs.elems) != 0 ==> icfg.acah != nil)
 //@   ensures result == nil && icfg.asteriskReqHdrs ==> len(icfg.allowedReqHdrs.elems) == 0 && icfg.acah == nil
+//@   ensures result == nil && icfg.acah != nil ==> !icfg.asteriskReqHdrs && len(icfg.allowedReqHdrs.elems) != 0
 //@   onappend C05.request_header_error: dyntype(e, "*cfgerrors.UnacceptableHeaderNameError") && payload(e, "*cfgerrors.UnacceptableHeaderNameError") != nil && payload(e, "*cfgerrors.UnacceptableHeaderNameError").Value === names[rangeindex+1] && payload(e, "*cfgerrors.UnacceptableHeaderNameError").Type == "request" && (payload(e, "*cfgerrors.UnacceptableHeaderNameError").Reason == "invalid" || payload(e, "*cfgerrors.UnacceptableHeaderNameError").Reason == "forbidden" || payload(e, "*cfgerrors.UnacceptableHeaderNameError").Reason == "prohibited")
 //@   loop 0 invariant -1 <= rangeindex && rangeindex < len(names)
 //@   loop 0 invariant C05.request_header_violation_count: len(errs) == old(NBadReqHdrs(names, rangeindex))
